@@ -115,6 +115,14 @@ class ExternalOptimizer(Optimizer):
                     except BrokenPipeError:
                         # The process is gone, this is handled below:
                         break
+                    except Exception:
+                        # The answer could not be sent, do not leave the
+                        # optimizer process running:
+                        with contextlib.suppress(ProcessLookupError):
+                            os.kill(self._process_pid, signal.SIGTERM)
+                        with contextlib.suppress(subprocess.TimeoutExpired):
+                            process.wait(_PROCESS_TIMEOUT)
+                        raise
                     if sent:
                         answer = None
                         # If the message has been sent, then reraise any exceptions:
@@ -376,6 +384,8 @@ class _JSONPipeCommunicator:
             def default(self, obj: Any) -> Any:  # noqa: ANN401
                 if isinstance(obj, np.ndarray):
                     return obj.tolist()
+                if isinstance(obj, Path):
+                    return str(obj)
                 return super().default(obj)
 
         if self._write_fd is None:
